@@ -82,7 +82,7 @@ package workceptor
 //@ func (*workceptorCommand).ControlFunc
 //@   tags C15
 //@   requires c != nil && c.w != nil && cfo != nil && nc != nil
-//@   site call processSignature UNIXONLY: requires arg3 ==> uf("m_net_Addr_Network", "string", addr) == "unix"
+//@   site call processSignature UNIXONLY: requires arg3 ==> lastcall("Network") == "unix"
 //@   site call AllocateUnit AUTHZSUBMIT: requires authorized(c.w, arg1, signature, connIsUnix, signWork)
 //@   site call AllocateRemoteUnit AUTHZSUBMITREMOTE: requires authorized(c.w, arg2, signature, connIsUnix, arg5)
 //@   site call Cancel AUTHZCANCEL: requires authorized(c.w, status.WorkType, signature, connIsUnix, signWork)
